@@ -36,11 +36,13 @@ Requests (after the family word):
                                 rop := u | u8 | s | b | o | d
                                 → results `u <n>` `s <hex>` `b <0|1>` `o optstr` `d data`, then `E <0|1>`
                                   (has_error) and `P <site>` if the model's fuel ran out
-    sink <script> <0|1> wop*    the same calls against a scripted sink; script := . | (a<k>|e),…
+    sink <script> <0|1> wop*    the same calls against a scripted sink; script := . | <i>:(a<k>|e),…
+                                (call i accepts at most k bytes / fails; other calls accept all)
                                 → <done|panic> <hex out> <ok 0|1> <calls>
     enc-fsm fsm                 → `panic` | <hex image>
     dec-fsm <hex>               → `ok <haserr> fsm` | `cantread` | `version <hex>` | `panic <site>`
     sink-fsm <script> <0|1> fsm → as `sink`, for FsmWriter::write + close
+    bounds-fsm fsm              → byte offsets after each primitive call of the image
     ops-fsm fsm                 → number of primitive calls and number of sink `write` calls (ideal sink)
     oracle-eq <k> tok*k tok*    → 1 iff both token lists are well-formed fsm dumps and equal (C05 oracle)
     oracle-prefix <kind>        → 1 iff the result kind of reading a strict prefix is an error (C18 oracle)
@@ -401,12 +403,24 @@ def runRops : List String → RState → Option (List String × RState)
       | none => none
       | some (out', st'') => some (out ++ out', st'')
 
-def parseScript (s : String) : Option (List Resp) :=
+def parseScript (s : String) : Option (List (Nat × Resp)) :=
   if s = "." then some [] else
   (s.splitOn ",").mapM fun t =>
-    if t = "e" then some Resp.err
-    else if t.startsWith "a" then (t.drop 1).toNat?.map Resp.acc
-    else none
+    match t.splitOn ":" with
+    | [i, r] =>
+      match i.toNat? with
+      | some i =>
+        if r = "e" then some (i, Resp.err)
+        else if r.startsWith "a" then (r.drop 1).toNat?.map (fun k => (i, Resp.acc k))
+        else none
+      | none => none
+    | _ => none
+
+/-- cumulative byte offsets after each primitive call of an image (for boundary-biased cuts) -/
+def opBounds (ops : List Op) : List Nat :=
+  (ops.foldl (fun (acc : Nat × List Nat) op =>
+    let n := acc.1 + op.bytes.length
+    (n, n :: acc.2)) (0, [])).2.reverse
 
 def sOutcome : SinkOutcome → String
   | .done w => join ["done", hex w.out, sBit w.ok, toString w.calls]
@@ -463,6 +477,10 @@ def handle : List String → String
       match runOps idealSink ops WState.init with
       | .done w => join [toString ops.length, toString w.calls]
       | .panic w => join [toString ops.length, toString w.calls, "panic"]
+    | none => "bad-op"
+  | "bounds-fsm" :: ts =>
+    match parseAll pFsm ts with
+    | some f => showNatList (opBounds (opsFsm f))
     | none => "bad-op"
   | "oracle-eq" :: k :: ts =>
     match k.toNat? with
